@@ -17,7 +17,8 @@ KINDS = ['u64', 'bytes']
 def histories(tier, kind):
     hs = artgen.histories('quick', seed(), kind, scan_ops=False)
     if tier != 'thorough':
-        hs = hs[:18]
+        td = [h for h in hs if h.tag.startswith('teardown')]
+        hs = [h for h in hs if not h.tag.startswith('teardown')][:18] + td[::6]
     out = []
     for h in hs:
         if 'k1' in h.tag:
